@@ -18,7 +18,7 @@ structure DetSpec (exts : Array Ext) (mx : List Nat) (nbF f i hi : Nat) (s det :
     det.rep.getD g 0 ≤ max (s.rep.getD g 0) (mx.getD g 0) ∧
     remQ exts mx det.rep g = (remQ exts mx s.rep g).drop R ∧
     seg exts (s.rep.getD g 0) (det.rep.getD g 0) g = (remQ exts mx s.rep g).take R
-  zero : R = 0 → det.rep.getD f 0 = s.rep.getD f 0 ∧ det.lastLong = s.lastLong
+  zero : R = 0 → det.rep = s.rep ∧ det.lastLong = s.lastLong
   pos : 0 < R → i ≤ det.rep.getD f 0 ∧ det.rep.getD f 0 < hi ∧
     (∃ e, exts[det.rep.getD f 0]? = some e ∧ e.frame.toNat = f) ∧ (seg exts i (det.rep.getD f 0) f).length + 1 = R
   ll : match lastLongPos pre with
